@@ -35,7 +35,7 @@ EXACT_GRIDS = ("unit", "const4", "uneven_p2", "uneven_alt", "three_p2")
 
 def lifetimes(rng, grid, extra, k):
     n = len(grid)
-    K = {"r": 2, "g": 3, "q": 1}
+    K = {"r": 2, "g": 3, "q": 1, "h": 2}
     out = [dict(kind="probe", mean=[1, 2, 4][k % 3], inflow_at=["middle", "start", "end"][k % 3])]
     if extra:
         l = extra[-1]
@@ -45,6 +45,13 @@ def lifetimes(rng, grid, extra, k):
             m = K[extra[1]] * n * K[extra[0]]
             out.append(dict(kind="probe", mean=dict(dims=d, values=[[1, 2, 4, 8][(k + 3 * i) % 4] for i in range(m)]), inflow_at="middle"))
     out.append(dict(kind="probe", mean=dict(dims=["t"], values=[[2, 4, 1, 8][(k + i) % 4] for i in range(n)]), inflow_at="end"))
+    # full-dimensional parameters stored in another order than the model's (equal lengths keep the shape)
+    if extra:
+        d = list(extra)[::-1] + ["t"] if k % 2 else [extra[0], "t"] + list(extra[1:])
+        m = n
+        for l in extra:
+            m *= K[l]
+        out.append(dict(kind="probe", mean=dict(dims=d, values=[[1, 2, 4, 8, 2, 1, 4][(k + 5 * i + i // 3) % 7] for i in range(m)]), inflow_at="start"))
     return out
 
 
